@@ -236,3 +236,29 @@ Definition model_obs (c : case) : list N :=
   ++ [if c_view_truth c then (if frames_eqb (c_view c) (cstream (c_parent c) (c_log c)) then 1 else 0) else 2].
 
 Definition check_case (c : case) : bool := lN_eqb (model_obs c) (c_expect c).
+
+(* ---------- the HTTP layer (server.rs thread_branch / thread_handoff) ----------
+   POST /threads/{id}/branch|handoff passes the body fields through to the store call and answers 201 with
+   the response tuple, or a status chosen by the text of the error: "out of range" / "requires only one of" /
+   "requires summary" -> 400, "does not exist" / "not found" -> 404, anything else -> 500. *)
+Definition http_status (r : result resp) : N :=
+  match r with
+  | Ok _ => 201
+  | Err (EBoth | EOutOfRange | ENoSummary) => 400
+  | Err (ENoParent | ENotFound | ENoArtifact) => 404
+  | Err EBundle => 500
+  end.
+Definition enc_res_http (r : result resp) : list N :=
+  match r with
+  | Err _ => [0; http_status r]
+  | Ok (c, cut, om) => [1; c; cut; opt om]
+  end.
+Definition model_obs_http (c : case) : list N :=
+  let '(l, arts, r) := run_case c in
+  let added := skipn (length (c_log c)) l in
+  let newart := firstn (length arts - length (c_arts c)) arts in
+  enc_res_http r
+  ++ nlen added :: concat (map enc_frame added)
+  ++ nlen newart :: concat (map (fun kv => fst kv :: nlen (snd kv) :: snd kv) newart)
+  ++ [if c_view_truth c then (if frames_eqb (c_view c) (cstream (c_parent c) (c_log c)) then 1 else 0) else 2].
+Definition check_case_http (c : case) : bool := lN_eqb (model_obs_http c) (c_expect c).
